@@ -842,14 +842,16 @@ Inductive sys_event :=
 | SHandBack (wr : bool)              (* final loop: onChunkLeft -> OnChunkLeftover *)
 | SStop              (* client observes inputClosed (= outputClosed of the feeder) *)
 | SInputClosed       (* client observes the closed and drained output channel *)
-| SFinish.           (* client returned (onFinished) and the feeder finishes *)
+| SFinish.           (* the feeder finishes: consumerCounter.Wait() has returned, i.e. the client has called onFinished
+                        (SC CFinish) before; whether the rest of the output channel is saved before or after that wait
+                        does not matter here (both orders are runs of this machine) *)
 
 Record sys := SYS { s_b : bstate; s_c : cstate }.
 
 Definition b_internal (e : b_event) : bool :=
   match e with BTake | BConsumed _ _ | BLeftover _ _ | BFinish => false | _ => true end.
 Definition c_internal (e : c_event) : bool :=
-  match e with CStop | CTake _ | CInputClosed | AckRead _ | CFinalPop | CFinish => false | _ => true end.
+  match e with CStop | CTake _ | CInputClosed | AckRead _ | CFinalPop => false | _ => true end.
 
 Definition closed_out (p : bphase) : bool := match p with BSaving | BDone => true | _ => false end.
 
@@ -891,9 +893,9 @@ Definition sys_step (bc : bcfg) (cc : ccfg) (s : sys) (e : sys_event) : option s
     | _ => None
     end
   | SFinish =>
-    match c_step cc (s_c s) CFinish with
-    | Some c' => match b_step bc (s_b s) BFinish with Some b => Some (SYS b c') | None => None end
-    | None => None
+    match c_phase (s_c s) with
+    | CStopped => match b_step bc (s_b s) BFinish with Some b => Some (SYS b (s_c s)) | None => None end
+    | _ => None
     end
   end.
 
@@ -1085,7 +1087,7 @@ Definition run_kind1 (c : case) : bytes :=
        24            SInputClosed        25              SFinish
        30 COpen 31 COpenFail 32 COpenStop 33 COpenOk 34 CRetryElapsed 35 CRetryStop 36 CPopLeft
        37 CRecoveryDone 38 CRecoveryStop 39 CReconnect 40 CPingFail 41 CSendFail 42 CSendOk 43 CQueue
-       44 CQueueStop 45 CQueueAckerEnded 46 AckerTake 47 AckErr 48 AckerEnd 49 CCollectDone 50 CCollectBug *)
+       44 CQueueStop 45 CQueueAckerEnded 46 AckerTake 47 AckErr 48 AckerEnd 49 CCollectDone 50 CCollectBug 51 CFinish *)
 
 Definition zb (z : Z) : bool := negb (z =? 0).
 
@@ -1137,6 +1139,7 @@ Fixpoint parse_events (fuel : nat) (sizes : list Z) (l : list Z) : option (list 
     | 48 :: r => cons (SC AckerEnd) (k r)
     | 49 :: r => cons (SC CCollectDone) (k r)
     | 50 :: r => cons (SC CCollectBug) (k r)
+    | 51 :: r => cons (SC CFinish) (k r)
     | _ => None
     end
   end.
